@@ -3,6 +3,7 @@ import Req.Client.Digest
 import Req.Client.Rfc7616
 import Req.Lemmas.C20Base64
 import Req.Lemmas.C20Accept
+import Req.Lemmas.C20Parse
 /-!
 C20 — authentication headers are computed correctly: property theorems.
 
@@ -486,6 +487,222 @@ theorem comma_usually_errors :
     answer b!"Digest realm=\"r\", nonce=\"n\", qop=\"auth, auth-int\"" b!"u" b!"pw" b!"GET" b!"/" = none ∧
     answer b!"Digest realm=\"Acme, Inc\", nonce=\"n\"" b!"u" b!"pw" b!"GET" b!"/" = none := by decide
 
+
+/-! ### the challenge as written by the server: parse_faithful and the end-to-end form -/
+
+/-- The parameter list says what the server means: realm and nonce are there, opaque and
+algorithm are there iff issued (and not empty), qop offers at most ONE option (a list needs a
+comma, which digest.go cannot read), userhash is `true` iff the server supports it. -/
+structure Describes (items : List Item) (sc : Issued) : Prop where
+  realm : lastValue items b!"realm" = some sc.realm
+  nonce : lastValue items b!"nonce" = some sc.nonce
+  opaq : lastValue items b!"opaque" = sc.opaq
+  opaqNe : sc.opaq ≠ some []
+  algorithm : lastValue items b!"algorithm" = sc.algorithm
+  algorithmNe : sc.algorithm ≠ some []
+  qop : match lastValue items b!"qop" with
+        | none => sc.qops = []
+        | some q => q ≠ [] ∧ sc.qops = [q]
+  userhash : sc.userhash = (lastValue items b!"userhash" == some b!"true")
+
+theorem issuedOf_challengeOf (items : List Item) (sc : Issued) (h : Describes items sc) :
+    issuedOf (challengeOf items) = sc := by
+  have fr := field_foldl b!"realm" (by decide) items {}
+  have fn := field_foldl b!"nonce" (by decide) items {}
+  have fo := field_foldl b!"opaque" (by decide) items {}
+  have fa := field_foldl b!"algorithm" (by decide) items {}
+  have fq := field_foldl b!"qop" (by decide) items {}
+  have fu := field_foldl b!"userhash" (by decide) items {}
+  have er : (challengeOf items).realm = sc.realm := by
+    have : (challengeOf items).realm = field b!"realm" (challengeOf items) := rfl
+    rw [this]; unfold challengeOf; rw [fr, h.realm]
+  have en : (challengeOf items).nonce = sc.nonce := by
+    have : (challengeOf items).nonce = field b!"nonce" (challengeOf items) := rfl
+    rw [this]; unfold challengeOf; rw [fn, h.nonce]
+  have eo : (if (challengeOf items).opaq.isEmpty then none else some (challengeOf items).opaq) = sc.opaq := by
+    have : (challengeOf items).opaq = field b!"opaque" (challengeOf items) := rfl
+    rw [this]; unfold challengeOf; rw [fo, h.opaq]
+    cases ho : sc.opaq with
+    | none => rfl
+    | some v =>
+      have : v ≠ [] := fun e => h.opaqNe (by rw [ho, e])
+      cases v with
+      | nil => exact absurd rfl this
+      | cons _ _ => rfl
+  have ea : (if (challengeOf items).algorithm.isEmpty then none else some (challengeOf items).algorithm) =
+      sc.algorithm := by
+    have : (challengeOf items).algorithm = field b!"algorithm" (challengeOf items) := rfl
+    rw [this]; unfold challengeOf; rw [fa, h.algorithm]
+    cases ho : sc.algorithm with
+    | none => rfl
+    | some v =>
+      have : v ≠ [] := fun e => h.algorithmNe (by rw [ho, e])
+      cases v with
+      | nil => exact absurd rfl this
+      | cons _ _ => rfl
+  have eq : (if (challengeOf items).qop.isEmpty then [] else [(challengeOf items).qop]) = sc.qops := by
+    have : (challengeOf items).qop = field b!"qop" (challengeOf items) := rfl
+    rw [this]; unfold challengeOf; rw [fq]
+    have hq := h.qop
+    cases hl : lastValue items b!"qop" with
+    | none => rw [hl] at hq; simp only at hq; rw [hq]; rfl
+    | some q =>
+      rw [hl] at hq
+      simp only at hq
+      rw [hq.2]
+      cases q with
+      | nil => exact absurd rfl hq.1
+      | cons _ _ => rfl
+  have eu : ((challengeOf items).userhash == b!"true") = sc.userhash := by
+    have : (challengeOf items).userhash = field b!"userhash" (challengeOf items) := rfl
+    rw [this]; unfold challengeOf; rw [fu, h.userhash]
+    cases hl : lastValue items b!"userhash" with
+    | none => rfl
+    | some v => simp
+  unfold issuedOf
+  rw [er, en, eo, ea, eq, eu]
+
+/-- what must be expressible inside quoted-strings, in the server's terms -/
+structure ExpressibleI (sc : Issued) (user uri : Bytes) : Prop where
+  user : sc.userhash = true ∨ user.all isQd = true
+  realm : sc.realm.all isQd = true
+  nonce : sc.nonce.all isQd = true
+  uri : uri.all isQd = true
+  opaq : ∀ o ∈ sc.opaq, o.all isQd = true
+
+/-- **parse_faithful**: `parseChallenge` reads a challenge written in ANY parameter order, with
+any optional white space (SP / HTAB) around the commas, any of space / tab / CR / LF around the
+whole value and after the scheme, each parameter in token or in quoted form, exactly as it was
+meant — provided no quoted value contains a comma or a quote. -/
+theorem parse_faithful (lead sp : Bytes) (items : List Item) (trail : Bytes)
+    (h : WellWritten lead sp items trail) :
+    parseChallenge (renderChallenge lead sp items trail) = .ok (challengeOf items) :=
+  parse_rendered lead sp items trail h
+
+/-- **digest_accepted_wire**: the end-to-end form of `digest_accepted`. The verifier is given
+what the SERVER issued (`sc`), not the client's reading of it: for every way of writing the
+challenge that `WellWritten` covers, every hash, account, method, target and entropy, the
+answer of the client is accepted. -/
+theorem digest_accepted_wire (H : Alg → Bytes → Bytes) (hH : ∀ a x, (H a x).all isQd = true)
+    (lead sp : Bytes) (items : List Item) (trail : Bytes) (sc : Issued)
+    (user pass method uri body : Bytes) (rnd : Option Bytes) (hdr : Bytes)
+    (hw : WellWritten lead sp items trail) (hd : Describes items sc)
+    (hx : ExpressibleI sc user uri)
+    (ha : handle H algOf user pass method uri .none rnd
+      { err := false, status := 401, wwwAuth := renderChallenge lead sp items trail } = .resend hdr none) :
+    verify H specAlg { issued := sc, method, uri, user, pass, body } hdr = true := by
+  have hparse := parse_faithful lead sp items trail hw
+  have hiss := issuedOf_challengeOf items sc hd
+  obtain ⟨_, _, _, _, c, hc, hauth⟩ :=
+    body_resent_intact H user pass method uri .none rnd _ hdr none ha
+  rw [hparse] at hc
+  cases hc
+  have hexp : Expressible (challengeOf items) user uri := by
+    refine ⟨?_, ?_, ?_, hx.uri, ?_⟩
+    · rcases hx.user with h1 | h1
+      · left
+        have : ((challengeOf items).userhash == b!"true") = true := by
+          have := congrArg Issued.userhash hiss
+          simp only [issuedOf] at this
+          rw [this, h1]
+        exact eq_of_beq this
+      · exact Or.inr h1
+    · have := congrArg Issued.realm hiss
+      simp only [issuedOf] at this
+      rw [this]; exact hx.realm
+    · have := congrArg Issued.nonce hiss
+      simp only [issuedOf] at this
+      rw [this]; exact hx.nonce
+    · have := congrArg Issued.opaq hiss
+      simp only [issuedOf] at this
+      cases ho : (challengeOf items).opaq with
+      | nil => rfl
+      | cons a as =>
+        rw [ho] at this
+        simp only [List.isEmpty_cons, Bool.false_eq_true, if_false] at this
+        exact hx.opaq _ this.symm
+  have := digest_accepted H hH (renderChallenge lead sp items trail) (challengeOf items) user pass method
+    uri body rnd hdr hparse hexp hauth
+  rw [hiss] at this
+  exact this
+
+/-- A supported, readable challenge on a 401 IS answered (request without body). -/
+theorem supported_resent (H : Alg → Bytes → Bytes) (user pass method uri r : Bytes) (resp : Resp)
+    (c : Challenge) (h401 : resp.err = false ∧ resp.status = 401) (hne : resp.wwwAuth ≠ [])
+    (hp : parseChallenge resp.wwwAuth = .ok c) (hs : Supported c) :
+    ∃ hdr, handle H algOf user pass method uri .none (some r) resp = .resend hdr none := by
+  obtain ⟨hdr, ha⟩ := supported_answered H c { user, pass, method, uri } r hs
+  refine ⟨hdr, ?_⟩
+  have he : resp.wwwAuth.isEmpty = false := by
+    cases h : resp.wwwAuth with
+    | nil => exact absurd h hne
+    | cons _ _ => rfl
+  simp [handle, h401.1, h401.2, he, hp, ha]
+
+/-- the example challenge of `exRaw` written differently: other order, tabs and spaces around
+the commas, `qop` as a token, `algorithm` quoted, white space around everything -/
+def exItems : List Item := [
+  ⟨[], ⟨b!"nonce", b!"n", true⟩, b!" "⟩,
+  ⟨b!"\t", ⟨b!"userhash", b!"true", false⟩, []⟩,
+  ⟨b!"  ", ⟨b!"qop", b!"auth", false⟩, b!" \t"⟩,
+  ⟨[], ⟨b!"charset", b!"utf-8", false⟩, []⟩,
+  ⟨b!" ", ⟨b!"algorithm", b!"SHA-256-sess", true⟩, []⟩,
+  ⟨b!" ", ⟨b!"realm", b!"r", true⟩, []⟩,
+  ⟨b!" ", ⟨b!"opaque", b!"o", true⟩, []⟩]
+
+example : renderChallenge b!" \r\n" b!" \t" exItems b!"\r\n" =
+    b!" \r\nDigest  \tnonce=\"n\" ,\tuserhash=true,  qop=auth \t,charset=utf-8, algorithm=\"SHA-256-sess\", realm=\"r\", opaque=\"o\"\r\n" := by
+  decide
+
+theorem exWellWritten : WellWritten b!" \r\n" b!" \t" exItems b!"\r\n" where
+  wsLead := by decide
+  wsSp := by decide
+  wsTrail := by decide
+  ok := by
+    intro i hi
+    simp only [exItems, List.mem_cons, List.not_mem_nil, or_false] at hi
+    rcases hi with rfl | rfl | rfl | rfl | rfl | rfl | rfl <;>
+      exact ⟨by decide, by decide, by decide, by decide, by decide⟩
+  nonempty := by decide
+  first := by intro i hi; cases hi; rfl
+  last := by intro i hi; simp [exItems] at hi; subst hi; rfl
+
+example : challengeOf exItems = exChal := by decide
+
+
+def exIssued : Issued :=
+  { realm := b!"r", nonce := b!"n", opaq := some b!"o", algorithm := some b!"SHA-256-sess",
+    qops := [b!"auth"], userhash := true }
+
+theorem exDescribes : Describes exItems exIssued where
+  realm := by decide
+  nonce := by decide
+  opaq := by decide
+  opaqNe := by decide
+  algorithm := by decide
+  algorithmNe := by decide
+  qop := by
+    have h : lastValue exItems b!"qop" = some b!"auth" := by decide
+    simp only [h]
+    exact ⟨by decide, rfl⟩
+  userhash := by decide
+
+/-- `digest_accepted_wire` is not vacuous: the re-written example challenge is answered, and the
+answer is accepted by the verifier holding what the server issued. -/
+example : ∃ hdr, handle exH algOf exCred.user exCred.pass exCred.method exCred.uri .none (some exRnd)
+      { err := false, status := 401, wwwAuth := renderChallenge b!" \r\n" b!" \t" exItems b!"\r\n" } =
+        .resend hdr none ∧
+    verify exH specAlg
+      { issued := exIssued, method := exCred.method, uri := exCred.uri, user := exCred.user,
+        pass := exCred.pass } hdr = true := by
+  have hp := parse_faithful _ _ _ _ exWellWritten
+  have hc : challengeOf exItems = exChal := by decide
+  rw [hc] at hp
+  obtain ⟨hdr, h⟩ := supported_resent exH exCred.user exCred.pass exCred.method exCred.uri exRnd
+    { err := false, status := 401, wwwAuth := renderChallenge b!" \r\n" b!" \t" exItems b!"\r\n" }
+    exChal ⟨rfl, rfl⟩ (by decide) hp exSupported
+  exact ⟨hdr, h, digest_accepted_wire exH exH_qd _ _ _ _ exIssued _ _ _ _ [] _ hdr exWellWritten exDescribes
+    ⟨Or.inl rfl, by decide, by decide, by decide, by decide⟩ h⟩
 
 end digest
 
